@@ -190,6 +190,10 @@ class EnvSpec:
             if abi_impl != "none":
                 if not abi_impl.startswith(python_tag.lower()):
                     return None
+                # only ABI flags (m, d, u, t) may follow: cp31 does not match cp312
+                abi_flags = abi_impl[len(python_tag) :]
+                if abi_flags and not abi_flags.isalpha():
+                    return None
                 if (
                     free_threaded is not None
                     and abi_impl.endswith("t") is not free_threaded
